@@ -19,6 +19,9 @@ func init() {
 	register(&CheckDef{Name: "values", Props: []string{"C06", "C15"}, Run: runValues, Replay: replayValues})
 }
 
+// usePtrForms: declare through the *Ptr entry points (BoolPtr, IntsPtr, ..) instead of the value-returning ones
+var usePtrForms bool
+
 type vtype struct {
 	name  string
 	multi bool
@@ -41,9 +44,16 @@ var vtypes = []*vtype{
 	{name: "bool", valid: "true", invalid: "maybe", cmd: [2]string{"true", "false"}, dflt: [2]string{"false", "true"},
 		decl: func(cmd *cli.Cmd, asOpt bool, name, env string, nz bool, sbu *bool) func() string {
 			var p *bool
-			if asOpt {
+			switch {
+			case usePtrForms && asOpt:
+				p = new(bool)
+				cmd.BoolPtr(p, cli.BoolOpt{Name: name, EnvVar: env, Value: nz, SetByUser: sbu})
+			case usePtrForms:
+				p = new(bool)
+				cmd.BoolPtr(p, cli.BoolArg{Name: name, EnvVar: env, Value: nz, SetByUser: sbu})
+			case asOpt:
 				p = cmd.Bool(cli.BoolOpt{Name: name, EnvVar: env, Value: nz, SetByUser: sbu})
-			} else {
+			default:
 				p = cmd.Bool(cli.BoolArg{Name: name, EnvVar: env, Value: nz, SetByUser: sbu})
 			}
 			return func() string { return fmt.Sprint(*p) }
@@ -53,9 +63,16 @@ var vtypes = []*vtype{
 		decl: func(cmd *cli.Cmd, asOpt bool, name, env string, nz bool, sbu *bool) func() string {
 			v := map[bool]string{false: "", true: "dflt"}[nz]
 			var p *string
-			if asOpt {
+			switch {
+			case usePtrForms && asOpt:
+				p = new(string)
+				cmd.StringPtr(p, cli.StringOpt{Name: name, EnvVar: env, Value: v, SetByUser: sbu})
+			case usePtrForms:
+				p = new(string)
+				cmd.StringPtr(p, cli.StringArg{Name: name, EnvVar: env, Value: v, SetByUser: sbu})
+			case asOpt:
 				p = cmd.String(cli.StringOpt{Name: name, EnvVar: env, Value: v, SetByUser: sbu})
-			} else {
+			default:
 				p = cmd.String(cli.StringArg{Name: name, EnvVar: env, Value: v, SetByUser: sbu})
 			}
 			return func() string { return *p }
@@ -65,9 +82,16 @@ var vtypes = []*vtype{
 		decl: func(cmd *cli.Cmd, asOpt bool, name, env string, nz bool, sbu *bool) func() string {
 			v := map[bool]int{false: 0, true: 7}[nz]
 			var p *int
-			if asOpt {
+			switch {
+			case usePtrForms && asOpt:
+				p = new(int)
+				cmd.IntPtr(p, cli.IntOpt{Name: name, EnvVar: env, Value: v, SetByUser: sbu})
+			case usePtrForms:
+				p = new(int)
+				cmd.IntPtr(p, cli.IntArg{Name: name, EnvVar: env, Value: v, SetByUser: sbu})
+			case asOpt:
 				p = cmd.Int(cli.IntOpt{Name: name, EnvVar: env, Value: v, SetByUser: sbu})
-			} else {
+			default:
 				p = cmd.Int(cli.IntArg{Name: name, EnvVar: env, Value: v, SetByUser: sbu})
 			}
 			return func() string { return fmt.Sprint(*p) }
@@ -77,9 +101,16 @@ var vtypes = []*vtype{
 		decl: func(cmd *cli.Cmd, asOpt bool, name, env string, nz bool, sbu *bool) func() string {
 			v := map[bool]float64{false: 0, true: 1.5}[nz]
 			var p *float64
-			if asOpt {
+			switch {
+			case usePtrForms && asOpt:
+				p = new(float64)
+				cmd.Float64Ptr(p, cli.Float64Opt{Name: name, EnvVar: env, Value: v, SetByUser: sbu})
+			case usePtrForms:
+				p = new(float64)
+				cmd.Float64Ptr(p, cli.Float64Arg{Name: name, EnvVar: env, Value: v, SetByUser: sbu})
+			case asOpt:
 				p = cmd.Float64(cli.Float64Opt{Name: name, EnvVar: env, Value: v, SetByUser: sbu})
-			} else {
+			default:
 				p = cmd.Float64(cli.Float64Arg{Name: name, EnvVar: env, Value: v, SetByUser: sbu})
 			}
 			return func() string { return fmt.Sprint(*p) }
@@ -92,9 +123,16 @@ var vtypes = []*vtype{
 				v = []string{"d1", "d2"}
 			}
 			var p *[]string
-			if asOpt {
+			switch {
+			case usePtrForms && asOpt:
+				p = new([]string)
+				cmd.StringsPtr(p, cli.StringsOpt{Name: name, EnvVar: env, Value: v, SetByUser: sbu})
+			case usePtrForms:
+				p = new([]string)
+				cmd.StringsPtr(p, cli.StringsArg{Name: name, EnvVar: env, Value: v, SetByUser: sbu})
+			case asOpt:
 				p = cmd.Strings(cli.StringsOpt{Name: name, EnvVar: env, Value: v, SetByUser: sbu})
-			} else {
+			default:
 				p = cmd.Strings(cli.StringsArg{Name: name, EnvVar: env, Value: v, SetByUser: sbu})
 			}
 			return func() string { return fmt.Sprintf("%q", *p) }
@@ -107,9 +145,16 @@ var vtypes = []*vtype{
 				v = []int{7, 8}
 			}
 			var p *[]int
-			if asOpt {
+			switch {
+			case usePtrForms && asOpt:
+				p = new([]int)
+				cmd.IntsPtr(p, cli.IntsOpt{Name: name, EnvVar: env, Value: v, SetByUser: sbu})
+			case usePtrForms:
+				p = new([]int)
+				cmd.IntsPtr(p, cli.IntsArg{Name: name, EnvVar: env, Value: v, SetByUser: sbu})
+			case asOpt:
 				p = cmd.Ints(cli.IntsOpt{Name: name, EnvVar: env, Value: v, SetByUser: sbu})
-			} else {
+			default:
 				p = cmd.Ints(cli.IntsArg{Name: name, EnvVar: env, Value: v, SetByUser: sbu})
 			}
 			return func() string { return fmt.Sprint(*p) }
@@ -128,9 +173,16 @@ var vtypes = []*vtype{
 				v = []float64{1.5, 2.5}
 			}
 			var p *[]float64
-			if asOpt {
+			switch {
+			case usePtrForms && asOpt:
+				p = new([]float64)
+				cmd.Floats64Ptr(p, cli.Floats64Opt{Name: name, EnvVar: env, Value: v, SetByUser: sbu})
+			case usePtrForms:
+				p = new([]float64)
+				cmd.Floats64Ptr(p, cli.Floats64Arg{Name: name, EnvVar: env, Value: v, SetByUser: sbu})
+			case asOpt:
 				p = cmd.Floats64(cli.Floats64Opt{Name: name, EnvVar: env, Value: v, SetByUser: sbu})
-			} else {
+			default:
 				p = cmd.Floats64(cli.Floats64Arg{Name: name, EnvVar: env, Value: v, SetByUser: sbu})
 			}
 			return func() string { return fmt.Sprint(*p) }
@@ -258,14 +310,18 @@ func runValues(c *Ctx) {
 						if !c.Begin("values", t.name) {
 							continue
 						}
-						valuesCase(c, t, asOpt, nz == 1, el, cmdlines[ci], cmdvals[ci], false)
-						valuesCase(c, t, asOpt, nz == 1, el, cmdlines[ci], cmdvals[ci], true)
+						for _, ptr := range []bool{false, true} {
+							usePtrForms = ptr
+							valuesCase(c, t, asOpt, nz == 1, el, cmdlines[ci], cmdvals[ci], false)
+							valuesCase(c, t, asOpt, nz == 1, el, cmdlines[ci], cmdvals[ci], true)
+						}
+						usePtrForms = false
 					}
 				}
 			}
 		}
 	}
-	c.Note("product", "7 built-in types x {option `[-x...]`, argument `[X...]`} x default {zero, non-zero} x environment lists of 0/1/2 variables each in "+strings.Join(envStates, "/")+" (where the type has such values) x command lines giving the value 0, 1 or 2 times in every spelling (-x=v, -x v, -xv, --xx=v, --xx v; flags: -x, --xx, -x=true, --xx=true, -x=false, --xx=false)")
+	c.Note("product", "7 built-in types x {option `[-x...]`, argument `[X...]`} x default {zero, non-zero} x environment lists of 0/1/2 variables each in "+strings.Join(envStates, "/")+" (where the type has such values) x {value-returning, *Ptr} declaration forms x command lines giving the value 0, 1 or 2 times in every spelling (-x=v, -x v, -xv, --xx=v, --xx v; flags: -x, --xx, -x=true, --xx=true, -x=false, --xx=false)")
 }
 
 func replayValues(c *Ctx, cs Case) {
@@ -274,6 +330,7 @@ func replayValues(c *Ctx, cs Case) {
 			opt, _ := cs["opt"].(bool)
 			nz, _ := cs["nonzero"].(bool)
 			nested, _ := cs["nested"].(bool)
+			usePtrForms, _ = cs["ptr"].(bool)
 			valuesCase(c, t, opt, nz, cStrs(cs, "env"), cStrs(cs, "cmdline"), cStrs(cs, "cmdvals"), nested)
 		}
 	}
@@ -349,8 +406,11 @@ func valuesCase(c *Ctx, t *vtype, asOpt, nz bool, envList, cmdline, cmdvals []st
 	if nested {
 		key += " on-subcommand"
 	}
+	if usePtrForms {
+		key += " ptr-form"
+	}
 	cs := func() Case {
-		return Case{"type": t.name, "opt": asOpt, "nonzero": nz, "env": envList, "cmdline": cmdline, "cmdvals": cmdvals, "nested": nested}
+		return Case{"type": t.name, "opt": asOpt, "nonzero": nz, "env": envList, "cmdline": cmdline, "cmdvals": cmdvals, "nested": nested, "ptr": usePtrForms}
 	}
 	offers := 0
 	if len(cmdvals) > 0 {
